@@ -404,6 +404,21 @@ func checkC04(c *Ctx) {
 			}
 			return bytes.Compare(binCases[a].doc, binCases[b].doc) < 0
 		})
+		{
+			// a document holding a byte that some way of writing treats specially (a format directive) goes
+			// through both kinds of -o, whatever its position in the list: the copy that follows it has the other parity
+			var expanded []binCase
+			nfmt := 0
+			for _, bc := range binCases {
+				expanded = append(expanded, bc)
+				if bytes.IndexByte(bc.doc, '%') >= 0 {
+					expanded = append(expanded, bc)
+					nfmt++
+				}
+			}
+			binCases = expanded
+			c.Set("binary_docs_with_percent_in_both_o_kinds", nfmt)
+		}
 		for i := range binCases {
 			bc := binCases[i]
 			mode := i % 4 // 0: -o - file, 1: -o FILE file, 2: -o - stdin, 3: -o FILE stdin
